@@ -10,7 +10,7 @@ THEOREMS = [
 THM_RLM = ["GE.Rlm.marking_sound", "GE.Rlm.uniq_nodup", "GE.Rlm.uniq_single", "GE.Rlm.mem_groupOrder", "GE.Rlm.groupOrder_nodup", "GE.Rlm.fresh_not_used"]
 
 THM_TAG = ["GE.TagSem.updates_refine", "GE.TagSem.update_refines", "GE.TagSem.update_renders", "GE.TagSem.create_renders", "GE.TagSem.renders_shape",
-           "GE.TagSem.toyLaw"]
+           "GE.TagSem.keyed_renders", "GE.TagSem.toyLaw"]
 
 THM_GUARD = [
     "GE.PA.Guard.guard_sound",
@@ -39,7 +39,12 @@ def run(chk):
     chk.trusted = ["Lean 4.33 kernel", "axioms ⊆ {propext, Classical.choice, Quot.sound}",
                    "GE/Model/PathAnalysis.lean tied by byte-equality of guard / template-data tree strings with the real generator (stream in the C03 check, re-run here)",
                    "real ProcGenWrapper + RangeListManager under node 22 with a stub backend", "update trees built by the oracle from diff(D,D')"]
-    chk.assumptions = ["PARTIAL: proved = no dependency root is forgotten by the analysis (analysis_covers_fields) and the value-level guard_sound for EVERY "
+    chk.assumptions = ["TAG LEVEL (GE/Thm/C06Tag.lean, model GE/Model/TagSem.lean tied by corr:tagsem): updates_refine - creation followed by any number of updates whose "
+                       "trees cover the successive differences leaves, up to node creation times, the tree of a fresh creation, for templates of text / elements with "
+                       "plain attributes / <block> / wx:if chains / wx:for with and without wx:key, under the hypotheses `Law` (sound guards, covering list trees, the "
+                       "meaning of a tree node for list items and keys). Those hypotheses are what guard_sound establishes at the expression level, but the two "
+                       "developments use different value domains and are not formally composed; template-is / include / slot and the other attribute families are oracle only",
+                       "PARTIAL: proved = no dependency root is forgotten by the analysis (analysis_covers_fields) and the value-level guard_sound for EVERY "
                        "expression form (data fields, scope variables, object literals with spread, array literals with holes and spread, member / index chains, "
                        "calls, operators, ??, conditionals): tree covers diff and guard false => same value; update_refines (the tag / list level: if / for / "
                        "template / slot bookkeeping) is established by the oracle only",
